@@ -62,6 +62,7 @@ def step(flmax, nblocks, nmax):
         m, FL, k, d, F, P, total, f, u = _state(flmax, nblocks)
         n = sym_int('n', 1, nmax)
         rp = {'kind': 'reads', 'args': {'FL': ev(FL), 'reads': [ev(d), ev(n), 7, None]}}
+        core.set_fallback(rp, 'C05/concretised')
         try:
             out = u.read(n)
         except core.OutOfFuel:
@@ -84,6 +85,7 @@ def readall(flmax, nblocks):
         core.FUEL.set(nblocks + 4)
         m, FL, k, d, F, P, total, f, u = _state(flmax, nblocks)
         rp = {'kind': 'reads', 'args': {'FL': ev(FL), 'reads': [ev(d), None, 5, None]}}
+        core.set_fallback(rp, 'C05/concretised')
         try:
             out = u.read()
         except core.OutOfFuel:
@@ -109,6 +111,7 @@ def validate(flmax, nblocks):
 
         def rp():
             return {'kind': 'unblock', 'args': {'data': concretize(F.rope(), ev)}}
+        core.set_fallback(rp, 'C05/concretised')
         try:
             m.unblock_1014(fi, fo)
             raised = None
@@ -145,6 +148,7 @@ def inverse(nmax, nblocks):
         n = sym_int('n', 0, nmax)
         D = Source('data', 'b', n)
         rp = {'kind': 'inverse', 'args': {'n': ev(n)}}
+        core.set_fallback(rp, 'C05/concretised')
         a, b, c = RopeFile(D.rope()), RopeFile(), RopeFile()
         m.block_1014(a, b)
         core.FUEL.set(nblocks + 4)
